@@ -3,6 +3,7 @@ import enum
 import re
 import warnings
 import inspect
+import itertools
 try:
     import annotationlib # py3.14+
 except ImportError:
@@ -1367,6 +1368,25 @@ def flipped(interface):
         return FlippedInterface(interface)
 
 
+def _flatten_members_with_indices(members, *, path=()):
+    # Like `SignatureMembers.flatten()`, but the members of a signature member that has dimensions
+    # are yielded once per index, with the indices included in the path. (Dimensions of port members
+    # are not expanded.)
+    for name, member in members.items():
+        yield ((*path, name), member)
+        if member.is_signature:
+            for indices in itertools.product(*(range(dim) for dim in member.dimensions)):
+                yield from _flatten_members_with_indices(member.signature.members,
+                                                         path=(*path, name, *indices))
+
+
+def _path_sort_key(path):
+    # Paths include both names and indices, which cannot be compared to each other.
+    if path is None:
+        return None
+    return tuple((0, item, "") if isinstance(item, int) else (1, 0, item) for item in path)
+
+
 @final
 class ConnectionError(Exception):
     """Exception raised when the :func:`connect` function is requested to perform an impossible,
@@ -1451,7 +1471,8 @@ def connect(m, *args, **kwargs):
         return
 
     # Collate signatures, build connections, track whether we see any input or output.
-    flattens = {handle: iter(sorted(signature.members.flatten()))
+    flattens = {handle: iter(sorted(_flatten_members_with_indices(signature.members),
+                                    key=lambda item: _path_sort_key(item[0])))
                 for handle, signature in signatures.items()}
     connections = []
     any_in, any_out = False, False
@@ -1485,12 +1506,14 @@ def connect(m, *args, **kwargs):
                     # Signature members are iterated in ascending lexicographical order, so the path
                     # that sorts greater corresponds to the handle that's missing a member.
                     if (path_for_handle is None or
-                            (first_path is not None and path_for_handle > first_path)):
+                            (first_path is not None and
+                                _path_sort_key(path_for_handle) > _path_sort_key(first_path))):
                         first_path_as_string = _format_path(first_path)
                         raise ConnectionError(f"Member {first_path_as_string} is present in "
                                               f"{first_handle!r}, but not in {handle!r}")
                     if (first_path is None or
-                            (path_for_handle is not None and path_for_handle < first_path)):
+                            (path_for_handle is not None and
+                                _path_sort_key(path_for_handle) < _path_sort_key(first_path))):
                         path_for_handle_as_string = _format_path(path_for_handle)
                         raise ConnectionError(f"Member {path_for_handle_as_string} is present in "
                                               f"{handle!r}, but not in {first_handle!r}")
